@@ -22,38 +22,40 @@ func init() {
 
 // profile steers the mixed generator.
 type profile struct {
-	modes      []string
-	nBars      []int
-	qKinds     []string // default | zero | one | two | nminus1 | n
-	syncP      int      // % of decorators that are synced
-	slowP      int      // % of decorators that are slow
-	maxDecs    int
-	popP       int // % of scenarios in pop mode
-	rmP        int // % of bars remove-on-complete
-	afterP     int // % of bars queued after an earlier one
-	extP       int // % of bars with extender lines
-	clientAddP int // % of bars added by a client (while rendering)
-	writeP     int // % of scenarios with Progress.Write traffic
-	prioP      int // % of scenarios with priority updates
-	endKinds   []string
-	trigP      int // % of cancel endings placed by a hook trigger
-	late       bool
-	notifierP  int
-	listenerP  int // % of bars carrying a shutdown listener
-	onDoneP    int
-	delayP     int
-	uwgP       int
-	abortP     int // % of bars finished by abort
-	waitEarlyP int
-	maxClients int
-	maxOps     int
-	width      int
-	policies   []string
-	targets    []string
-	posTotals  bool // only positive totals
-	staleP     int  // % of clients that keep using a bar after it left the display
-	narrowP    int  // % of scenarios with a container only a few columns wide
-	emptyMsgP  int  // % of wrapped decorators whose on-complete / on-abort message is empty
+	modes        []string
+	nBars        []int
+	qKinds       []string // default | zero | one | two | nminus1 | n
+	syncP        int      // % of decorators that are synced
+	slowP        int      // % of decorators that are slow
+	maxDecs      int
+	popP         int // % of scenarios in pop mode
+	rmP          int // % of bars remove-on-complete
+	afterP       int // % of bars queued after an earlier one
+	extP         int // % of bars with extender lines
+	clientAddP   int // % of bars added by a client (while rendering)
+	writeP       int // % of scenarios with Progress.Write traffic
+	prioP        int // % of scenarios with priority updates
+	endKinds     []string
+	trigP        int // % of cancel endings placed by a hook trigger
+	late         bool
+	notifierP    int
+	listenerP    int // % of bars carrying a shutdown listener
+	onDoneP      int
+	delayP       int
+	uwgP         int
+	abortP       int // % of bars finished by abort
+	waitEarlyP   int
+	maxClients   int
+	maxOps       int
+	width        int
+	policies     []string
+	targets      []string
+	posTotals    bool     // only positive totals
+	staleP       int      // % of clients that keep using a bar after it left the display
+	narrowP      int      // % of scenarios with a container only a few columns wide
+	emptyMsgP    int      // % of wrapped decorators whose on-complete / on-abort message is empty
+	builtinKinds []string // nil = all; elapsed and avgspeed print nothing on a bar that finished before its first frame
+	builtinP     int      // % of plain decorators turned into built-in ones (speed, ETA, elapsed, spinner, empty name), half of them width-synchronised
 }
 
 var baseProfile = profile{
@@ -88,6 +90,8 @@ var baseProfile = profile{
 }
 
 var trigPoints = []string{"render.begin", "render.requested", "flush.bar", "flush.write", "hm.req", "hm.push", "dist.collected", "bar.exit", "bar.render.terminal", "early.refresh", "bar.trigger", "add", "render.end"}
+
+func unbracketed(kind string) bool { return kind == "avgeta" || kind == "ewmaeta" || kind == "elapsed" }
 
 func genMixed(seed uint64, fam string, pf profile) *Scenario {
 	r := common.NewRng(seed)
@@ -154,6 +158,34 @@ func genMixed(seed uint64, fam string, pf profile) *Scenario {
 			for di := range ds {
 				if ds[di].Wrap != "" && r.Chance(pf.emptyMsgP, 100) {
 					ds[di].Wrap = r.PickS("oncompleteE", "onabortE")
+				}
+			}
+		}
+		if pf.builtinP > 0 {
+			// own stream: the rest of the scenario is the same with and without this profile knob
+			r2 := common.NewRng(common.H(seed, "builtin", i))
+			for _, ds := range [][]DecSpec{b.Pre, b.App} {
+				for di := range ds {
+					if ds[di].Kind == "sync" || !r2.Chance(pf.builtinP, 100) {
+						continue
+					}
+					ds[di].Sync = r2.Chance(2, 3)
+					ds[di].Slow = 0
+					if r2.Bool() {
+						kinds := pf.builtinKinds
+						if kinds == nil {
+							kinds = []string{"avgspeed", "avgeta", "elapsed", "ewmaspeed", "ewmaeta", "spindec", "emptyname", "emptyname"}
+						}
+						ds[di].Kind = kinds[r2.Intn(len(kinds))]
+						// texts without brackets (times) must not touch: the row parser splits fields at brackets and spaces
+						if di > 0 && unbracketed(ds[di].Kind) && unbracketed(ds[di-1].Kind) {
+							ds[di].Kind = "spindec"
+						}
+						if ds[di].Kind == "emptyname" {
+							ds[di].Wrap = r2.PickS("", "", "meta")
+							ds[di].W = r2.Pick(0, 0, 0, 3)
+						}
+					}
 				}
 			}
 		}
@@ -369,7 +401,7 @@ func genFor(prop, part string, seed uint64) *Scenario {
 	case "C04", "C18":
 		return genC04(seed, part, prop)
 	case "C01":
-		pf.narrowP, pf.emptyMsgP = 15, 30
+		pf.narrowP, pf.emptyMsgP, pf.builtinP = 15, 30, 30
 		if part == "err" {
 			sc := genC15(seed, common.NewRng(seed).PickS("filler", "filler", "output"))
 			sc.Fam = "C01/err"
@@ -392,7 +424,7 @@ func genFor(prop, part string, seed uint64) *Scenario {
 			pf.slowP = 3
 		}
 	case "C02":
-		pf.narrowP, pf.emptyMsgP = 10, 30
+		pf.narrowP, pf.emptyMsgP, pf.builtinP = 10, 30, 30
 		if part == "waiters" {
 			return genC02Waiters(seed)
 		}
